@@ -6,7 +6,7 @@ TIER=${1:-quick}
 for d in seeded/*/; do
   id=$(basename $d); [ -f $d/patch.diff ] || continue
   prop=$(echo $id | sed 's/^own-//' | cut -d- -f1)
-  out=$(tools/try_mutant.sh $prop $d/patch.diff --tier $TIER 2>&1); rc=$?
+  out=$(tools/try_mutant.sh $prop "$PWD/${d}patch.diff" --tier $TIER 2>&1); rc=$?
   if echo "$out" | grep -q "PATCH DOES NOT APPLY"; then echo "$id: patch does not apply at HEAD (conflicts with a later fix or hook)"; continue; fi
   case $rc in 1) r=caught;; 0) r=MISSED;; *) r="error rc=$rc";; esac
   echo "$id: $r $(echo "$out" | grep "^\[$prop\] tier" | cut -c1-120)"
